@@ -147,12 +147,131 @@ def install_callbacks(ex, n):
         ex.call_hooks["ufunc:cb%d" % k] = cb
 
 
+def track_rows(ex, reg, prop):
+    """Ghost link between the integrator's result and the recorded row: at the end of every loop iteration the new row is
+    (previous time + returned dTime, previous state + returned dState) -- times and states stay paired with the step that produced them."""
+    base_contract = ex.contracts["Integrator.__call__"]
+    orig_apply = ex.apply_contract
+
+    def apply(c, args, kwargs, st, ctx, node):
+        if c is base_contract and "self" in st.env and isinstance(st.env["self"], Ref):
+            o = st.obj(st.env["self"]).fields
+            cnt = o["counter"]
+            rec = dict(counter=cnt, t=z3.Select(o["_OdeSystem__t"].arr, cnt), y=z3.Select(o["_OdeSystem__y"].arr, cnt))
+            out = orig_apply(c, args, kwargs, st, ctx, node)
+            for s2, v in out:
+                if not isinstance(v, Raised):
+                    s2.ghost["row"] = dict(rec, result=v)
+            return out
+        return orig_apply(c, args, kwargs, st, ctx, node)
+    ex.apply_contract = apply
+
+    def iteration_end(ex_, st, ctx):
+        row = st.ghost.get("row")
+        if row is None:
+            reg.ground("%s/%s/recorded-row-is-previous-plus-returned-increment" % (ex_.prop, ctx.tag), "post", "OdeSystem.integrate", False, detail="no integrator call in the iteration")
+            return
+        o = st.obj(st.env["self"]).fields
+        new_dt, (dT, dS) = row["result"]
+        cnt = o["counter"]
+        ex_.prove(st, ctx, z3.And(cnt == row["counter"] + 1, z3.Select(o["_OdeSystem__t"].arr, cnt) == row["t"] + dT, z3.Select(o["_OdeSystem__y"].arr, cnt) == row["y"] + dS),
+                  "post", "recorded-row-is-previous-plus-returned-increment")
+    return iteration_end
+
+
 def verify_integrate(src, reg, prop, callbacks=0, fixed_step=False, extra_inv=(), extra_post=(), extra_req=(), post_hook=None, regions=None, status0=0, t_given=True,
                      extra_exc=(), drop_status_post=False, loop_hooks=None):
     ex = base_executor(src, reg, prop, fixed_step=fixed_step)
     install_callbacks(ex, callbacks)
+    if loop_hooks is None:
+        loop_hooks = {"on_iteration_end": track_rows(ex, reg, prop)}
     c = make_contract(callbacks, extra_inv, extra_post, extra_req, status0=status0, t_given=t_given, extra_exc=extra_exc, drop_status_post=drop_status_post)
     if loop_hooks:
         c.loops[0].update(loop_hooks)
     rets = ex.verify(c, post_hook=post_hook, regions=regions)
+    return ex, c, rets
+
+
+# ----------------------------------------------------------------------------------------------------------------
+# dense output kept (forward runs): one interpolant per recorded step, covering exactly the recorded grid
+# ----------------------------------------------------------------------------------------------------------------
+SOL = "self._OdeSystem__sol"
+DENSE_REP = [
+    # DO_Inv + CacheInv of the DenseOutput object (props/dense.py), restated on self.__sol
+    "len(SOL.t_eval) == len(SOL.y_interpolants)",
+    "forall(lambda i, j: implies(0 <= i and i < j and j < len(SOL.t_eval), SOL.t_eval[i] < SOL.t_eval[j]))",
+    "forall(lambda i: implies(0 <= i and i < len(SOL.t_eval), SOL.y_interpolants[i].t1 == SOL.t_eval[i]))",
+    "forall(lambda i: implies(1 <= i and i < len(SOL.t_eval), SOL.y_interpolants[i].t0 == SOL.t_eval[i - 1]))",
+    # exactly one piece per recorded step: piece i spans [t_i, t_{i+1}]
+    "len(SOL.t_eval) == self.counter",
+    "forall(lambda i: implies(0 <= i and i < self.counter, SOL.t_eval[i] == self.__t[i + 1] and SOL.y_interpolants[i].t0 == self.__t[i]))",
+]
+DENSE_REP = [c.replace("SOL", SOL) for c in DENSE_REP]
+
+
+def verify_integrate_dense(src, reg, prop, callbacks=0):
+    """integrate() with dense output kept, forward direction: the dense output covers exactly the recorded steps, on normal
+    and on exceptional exit."""
+    from . import dense as DN
+    from pyvc import builtins as B
+    ex = base_executor(src, reg, prop)
+    install_callbacks(ex, callbacks)
+    DN.install(ex)
+    ex.inline.update(["DenseOutput.__len__"])
+    base_contract = ex.contracts["Integrator.__call__"]
+    orig_apply = ex.apply_contract
+
+    def apply(c, args, kwargs, st, ctx, node):
+        out = orig_apply(c, args, kwargs, st, ctx, node)
+        if c is base_contract:
+            for s2, v in out:
+                if not isinstance(v, Raised):
+                    integ = s2.obj(args[0]).fields
+                    integ["initial_time"], integ["initial_state"] = args[2], args[3]
+                    integ["dTime"], integ["dState"] = v[1][0], v[1][1]
+        return out
+    ex.apply_contract = apply
+
+    def dense_output(ex_, st, ctx, args, kwargs):
+        # contract of TableauIntegrator.dense_output (proved in props/C06.py from its body): the Hermite piece of the last step
+        integ = st.obj(args[0]).fields
+        t0, dT = integ["initial_time"], integ["dTime"]
+        piece = st.new_obj("CubicHermiteInterp", fields=dict(t0=t0, t1=t0 + dT, id=z3.Int(fresh_name("piece_id"))))
+        return (t0 + dT, piece)
+    ex.call_hooks["Integrator.dense_output"] = dense_output
+
+    def add_interpolant(ex_, st, ctx, args, kwargs):
+        # contract of DenseOutput.add_interpolant[first|forward] (proved in props/dense.py): requires adjacency, appends the piece
+        sol, t, piece = args
+        sf = st.obj(sol).fields
+        te, yi = st.obj(sf["t_eval"]), st.obj(sf["y_interpolants"])
+        n = te.fields["len"]
+        pf = st.obj(piece).fields
+        last = z3.Select(te.fields["cols"]["v"], n - 1)
+        ex_.prove(st, ctx, z3.And(pf["t1"] == t, t > pf["t0"], z3.Or(n == 0, pf["t0"] == last)), "pre@callsite", "pre@callsite:add_interpolant-adjacent-forward")
+        B._symlist_method(ex_, sf["t_eval"], "append", [t], st, ctx)
+        B._symlist_method(ex_, sf["y_interpolants"], "append", [piece], st, ctx)
+        sf["_DenseOutput__t_eval_arr_stale"] = True
+        return None
+    ex.call_hooks["DenseOutput.add_interpolant"] = add_interpolant
+    c = make_contract(callbacks)
+    c.sorts = dict(c.sorts)
+    selfsort = c.sorts["self"]
+    fields = dict(selfsort[2])
+    fields["_OdeSystem__dense_output"] = ("const", True)
+    c.sorts["self"] = ("obj", "OdeSystem", fields)
+    c.requires = c.requires + DENSE_REP + ["tf_ > self.__t[self.counter]"]
+    c.ensures = c.ensures + DENSE_REP
+    c.ensures_exc = c.ensures_exc + DENSE_REP
+    c.loops = {0: {"invariant": c.loops[0]["invariant"] + DENSE_REP}}
+    # the DenseOutput object of the pre-state: symbolic-length lists
+    st_holder = {}
+    orig_make = ex.make_param
+
+    def make_param(name, sort, st):
+        if name == "self._OdeSystem__sol":
+            return DN.new_dense(st, "sol")
+        return orig_make(name, sort, st)
+    ex.make_param = make_param
+    rets = ex.verify(c)
     return ex, c, rets
